@@ -45,6 +45,12 @@ BREAKERS = [
     ('duplicate field names', 'struct X { u8 a; u16 a; };'),
     ('duplicate arm names', 'union V { 1: u8 a; 2: u16 a; };'),
     ('duplicate discriminators', 'union V { 1: u8 a; 1: u16 b; };'),
+    ('enumerator named like an earlier struct', 'enum Z { F = 1, Q = 2 };'),
+    ('enumerator named like an earlier typedef', 'enum Z { TF = 1, Q = 2 };'),
+    ('enumerator named like its own enum', 'enum Z { Z = 1, Q = 2 };'),
+    ('struct named like an earlier enumerator', 'enum Z { Q1 = 1 }; struct Q1 { u8 a; };'),
+    ('constant named like an earlier struct', 'const F = 3;'),
+    ('typedef named like an earlier struct', 'typedef u8 F;'),
     ('zero array size', 'struct X { u8 a[0]; };'),
     ('negative array size', 'struct X { u8 a[-1]; };'),
     ('zero limit', 'struct X { u8 a<0>; };'),
